@@ -309,14 +309,14 @@ fn one_case(_ctx: &Ctx, case: u64, r: &mut Rng, rep: &mut Report, cap: usize, bi
 }
 
 pub fn run(ctx: &Ctx) -> (Report, Meta) {
-    let n = ctx.tier.pick(6_000, 400_000);
+    let n = ctx.tier.pick(20_000, 3_000_000);
     let cap = ctx.tier.pick(48 * 1024, 128 * 1024);
     let mut rep = run_cases(ctx, n, &|c, i, r, rep| one_case(c, i, r, rep, cap, false));
     // a few big-parameter cases (default-like sizes)
     let nb = ctx.tier.pick(6, 120);
     let mut ctx2 = ctx.clone();
     ctx2.seed ^= 0xb16;
-    let big = run_cases(&ctx2, nb, &|c, i, r, rep| one_case(c, i + 1_000_000, r, rep, ctx.tier.pick(6, 24) * 1024 * 1024, true));
+    let big = { let mut cb = ctx2.clone(); cb.case_base = 1_000_000; run_cases(&cb, nb, &|c, i, r, rep| one_case(c, i + 1_000_000, r, rep, ctx.tier.pick(6, 24) * 1024 * 1024, true)) };
     rep.merge(big);
     let meta = Meta {
         level: "exploration",
